@@ -32,6 +32,10 @@ MANIFEST = {
             "site except the folder / file levels, whose stale keys are guarded by the exists / not-deleted rules. PARTIAL: 'every "
             "request is answered' holds in the model only for requests that are refused or carry the options their handler reads "
             "(C05_answered_partial / C05_answered_counterexample; open finding F-C05-2: 30 handlers raise IndexError on missing options). "
+            "Dynamic sites: the guards of every add_request / remove_request site are regenerated and proved free of power / operating-state "
+            "tests, with only presence / type guards beyond the registry statement (C05_gen_sites_unconditional); on the construction-order "
+            "model routes = registry for every operation sequence (C05_exists_iff_route, C05_guarded_site_counterexample). No handler copies "
+            "or slices its options before reading them (C05_gen_no_options_view_bypass). "
             "Ties: Gen/RequestCore (shape of __call__/check_valid, unhashable-key guard), Gen/RequestSchema, Gen/ActionTemplates, "
             "Gen/RequestValidators; rigs R-req (live trees at perturbed states incl. powered-off network devices: status, depth, handler, "
             "#args vs the model; route mutations incl. unhashable / None / float / bool elements, empty and over-long requests; every "
@@ -452,6 +456,12 @@ def edits(ctx: Ctx):
         except Exception:
             continue
         bad += redits.exercise(ctx, label, sim, rng.fork(label))
+        for f in redits.construction_orders(ctx, label, sim, rng.fork(label + ":orders")):
+            mm = f["mismatch"]
+            ctx.violation({"kind": "component-exists-without-its-route", "what": mm["kind"], "level": mm.get("level"),
+                           "state_when_added": f["state_at_edit"]},
+                          f"{label}: a {f['node_class']} built while {f['state_at_edit']} ({f['order']}): after {f['ops']} the object graph and "
+                          f"the request tree disagree: {mm}", {"scenario": label, "construction": f})
     ctx.oblige("rig:R-edits every real tree edit is local, leads to the component's own manager / leaves no route, and orders keys like "
                "addKey / removeKey", "correspondence", not bad, "; ".join(bad[:6]))
     for b in bad[:1]:
